@@ -26,7 +26,8 @@ pub(crate) fn tuple(attr: &StructAttr, ts_name: Expr, fields: &FieldsUnnamed) ->
         inline: quote! {
             format!(
                 "[{}]",
-                [#(#formatted_fields),*].join(", ")
+                // every field may be skipped: an empty array literal alone has no element type
+                <[String]>::join(&[#(#formatted_fields),*], ", ")
             )
         },
         inline_flattened: None,
